@@ -52,4 +52,39 @@ def condFitInputs {α β} (est : List α → β) (refs : List α) (intervals : L
   let ests := intervals.map est
   (ests, refs.zip ests)
 
+/-! ### the Width / Number slicers with their float arithmetic abstracted
+
+`widthSliceF` / `numberSliceF` (Model/Slicers.lean) compute the interval starts with `arange` /
+`linspace` on doubles. For the order-invariance theorem only one fact about that arithmetic is
+needed: the starts are a function of the data **maximum** (Width) resp. **minimum and maximum**
+(Number) and of the slicer's options, of nothing else. `widthSliceG` / `numberSliceG` are the same
+functions with that computation as a parameter (`startsOf`); at `Float` with `arange` / `linspaceNoEnd`
+they are definitionally the executable models (`C09.widthSliceF_eq_G`, `C09.numberSliceF_eq_G`). -/
+
+def widthSliceG {α} [LE α] [LT α] [DecidableLE α] [DecidableLT α] [Add α] [Sub α]
+    (startsOf : α → List α) (rightOpen : Bool) (ref : RefKind) (width halfWidth : α)
+    (vmax : Option α) (minPts minIntervals : Nat) (data : List α) :
+    Except SliceErr (List (Interval α)) :=
+  match (match vmax with | some m => some m | none => listMax data) with
+  | none => .error .emptyData
+  | some dataMax =>
+    finishSlice minIntervals (dropSmall minPts
+      (widthIntervalsOfStarts rightOpen ref width halfWidth (startsOf dataMax) data))
+
+def numberSliceG {α} [LE α] [LT α] [DecidableLE α] [DecidableLT α] [Add α]
+    (startsOf : α → α → List α × α) (half : α → α) (nIntervals : Nat) (includeMax : Bool) (ref : RefKind)
+    (range : Option (α × α)) (minPts minIntervals : Nat) (data : List α) :
+    Except SliceErr (List (Interval α)) :=
+  let r : Option (α × α) := match range with
+    | some r => some r
+    | none => match listMin data, listMax data with
+      | some a, some b => some (a, b)
+      | _, _ => none
+  match r with
+  | none => .error .emptyData
+  | some (a, b) =>
+    let (starts, w) := startsOf a b
+    finishSlice (min minIntervals nIntervals)
+      (dropSmall minPts (numberIntervalsOfStarts includeMax ref w (half w) b starts data))
+
 end VirVerif
